@@ -288,7 +288,8 @@ impl ops::Div<&Array> for &Array {
             vec![
                 if t[0] { Some(x / &c[1]) } else { None },
                 if t[1] {
-                    Some(&(&-(&c[0]) / &(c[1].powf(2.0))) * x)
+                    // divide twice: the square of the denominator may overflow where the derivative does not
+                    Some(&(&(&-(&c[0]) / &c[1]) / &c[1]) * x)
                 } else {
                     None
                 },
